@@ -7,7 +7,8 @@ declare -A P=( [a1]="C02" [a2]="C05" [a3]="C01 C02 C08" [b1]="C03 C05" [b2]="C04
   [j1]="C10" [j2]="C13" [j3]="C16" [k1]="C02" [k2]="C04 C03" [k3]="C07" [l1]="C17" [l2]="C18" [l3]="C11"
   [m1]="C09" [m2]="C08 C15" [m3]="C19" [n1]="C05" [n2]="C03 C02" [n3]="C06 C05" [o1]="C13" [o2]="C16" [o3]="C14 C06"
   [p1]="C10" [p2]="C11" [p3]="C18" [q1]="C01 C05" [q2]="C09" [q3]="C19" [r1]="C02" [r2]="C15 C05" [r3]="C07 C15"
-  [s1]="C03" [s2]="C08" [s3]="C16" [t1]="C13" [t2]="C14 C13" [t3]="C17" [u1]="C04" [u2]="C05" [u3]="C06" )
+  [s1]="C03" [s2]="C08" [s3]="C16" [t1]="C13" [t2]="C14 C13" [t3]="C17" [u1]="C04" [u2]="C05" [u3]="C06"
+  [v1]="C08 C05" [v2]="C15" [v3]="C17" [w1]="C05" [w2]="C06" [w3]="C13" [x1]="C01 C02 C05" [x2]="C04" [x3]="C14" )
 IDS="$@"; [ -z "$IDS" ] && IDS=$(echo "${!P[@]}" | tr ' ' '\n' | sort)
 for id in $IDS; do "$HERE/run_seed_on_repo.sh" $id ${P[$id]}; done
 echo ALLSEEDSDONE
